@@ -908,7 +908,19 @@ def r_nth(f):
                 return a == b2 or decide(conds, Cond("==", a - b2)) is True
             if name == "swap_rows":
                 A, B = Poly.atom(names[0]), Poly.atom(names[1])
-                if decide(conds, Cond("!=", A - B)) is not True:
+                # is this returning path possible with r1 == r2?  substitute r2 := r1 in its facts and look for a contradiction
+                consistent = decide(conds, Cond("!=", A - B)) is not True
+                if consistent:
+                    for ce in P.conds:
+                        if ce.poly is None:
+                            continue
+                        q_ = subst_atom(ce.poly, names[1], Poly.atom(names[0]))
+                        if q_.is_const():
+                            v_ = q_.cval()
+                            holds = {"==": v_ == 0, "!=": v_ != 0, "<": v_ < 0, "<=": v_ <= 0, ">": v_ > 0, ">=": v_ >= 0}.get(ce.op, True)
+                            if not holds:
+                                consistent = False
+                if consistent:
                     returns_when_equal = True
                 sw = [a for a in P.acc if a[0] == "swaprows"]
                 if decide(conds, Cond("==", A - B)) is True and not sw:
